@@ -28,6 +28,7 @@ import (
 	"pgregory.net/rapid"
 
 	"verifharness/hx"
+	"verifharness/observe"
 )
 
 // rawBytes codec: client and backends exchange already-marshalled protobuf
@@ -391,6 +392,11 @@ func TestC16Calls(t *testing.T) {
 		route.SetTable(tbl)
 		ncalls := rapid.IntRange(1, 4).Draw(t, "ncalls")
 		for c := 0; c < ncalls; c++ {
+			if rapid.IntRange(0, 3).Draw(t, "admin-looks-at-the-table") == 0 {
+				// somebody opens the routes page of the UI / calls the admin API between two calls
+				observe.Poke(route.GetTable())
+				hx.Class("admin-endpoints-read-the-table-between-calls")
+			}
 			method := rapid.SampledFrom([]string{"/pkg.A/M1", "/pkg.A/M2", "/pkg.A/Special", "/pkg.B/Get", "/pkg.C/Nope", "/pkg.A/SpecialX",
 				// well-known services a gRPC server might answer itself: they are method paths like any other
 				"/grpc.health.v1.Health/Check", "/grpc.health.v1.Health/Watch", "/grpc.reflection.v1alpha.ServerReflection/ServerReflectionInfo", "/grpc.channelz.v1.Channelz/GetServers"}).Draw(t, "method")
